@@ -114,7 +114,7 @@ class Spec:
         # queries, solves, save/load, check: no change of the specification
 
 
-def program(spec, consts=None):
+def program(spec, consts=None, exprs=None):
     """The specification written afresh: canonical op list.
 
     consts: optional {param name: value} -- those parameters are *not* declared; every use is
@@ -125,7 +125,11 @@ def program(spec, consts=None):
         if s["name"] in consts:
             cshape[s["name"]] = (s.get("rows", 1), s.get("cols", 1), flat_cm(consts[s["name"]], s.get("rows", 1), s.get("cols", 1)))
 
+    exprs = exprs or {}  # parameter name -> expression written in its place (C09, node-only parameters)
+
     def sub(ast):
+        if exprs:
+            ast = E.subst_exprs(ast, exprs)
         return E.subst_consts(ast, cshape) if cshape else ast
 
     def tsub(ts):
@@ -142,7 +146,7 @@ def program(spec, consts=None):
         new["t0"] = t0
     ops.append(new)
     for s in spec.syms:
-        if s["name"] in consts:
+        if s["name"] in consts or s["name"] in exprs:
             continue
         ops.append(dict(op="sym", **s))
     if T[0] == "par":
@@ -180,7 +184,7 @@ def program(spec, consts=None):
     if spec.cb:
         ops.append({"op": "callback"})
     for p, v in spec.values.items():
-        if p in consts:
+        if p in consts or p in exprs:
             continue
         ops.append({"op": "set_value", "p": p, "v": v})
     for x, g in spec.initial:
@@ -214,6 +218,10 @@ def make_grid(g):
         return GeometricGrid(g.get("growth", 2), local=g.get("local", False), **kw)
     if g["cls"] == "Free":
         return FreeGrid(**kw)
+    if g["cls"] == "DenseEdges":
+        from rockit import DenseEdgesGrid
+
+        return DenseEdgesGrid(multiplier=g.get("multiplier", 10), edge_frac=g.get("edge_frac", 0.1), **kw)
     raise ValueError(g)
 
 
@@ -418,8 +426,23 @@ class Actor:
         if k == "set_t0":
             return o.set_t0(self.tspec(op["t0"]))
         if k == "method":
+            root = self.parent or self
+            if op.get("obj"):
+                # the user keeps one method object and hands it to several stages / several calls
+                # ("Will not be modified", says rockit's docstring)
+                reg = root.hidden.setdefault("method_objs", {})
+                key = op["obj"] + json.dumps(op["m"], sort_keys=True)
+                if key not in reg:
+                    reg[key] = make_method(op["m"])
+                return o.method(reg[key])
             return o.method(make_method(op["m"]))
         if k == "solver":
+            if op.get("reuse"):
+                # the user keeps one options dict, updates it in place and calls solver() again
+                d = self.hidden.setdefault("solver_opts", {})
+                d.clear()
+                d.update(jcopy(op.get("opts", {})))
+                return o.solver(op["name"], d)
             return o.solver(op["name"], jcopy(op.get("opts", {})))
         if k == "set_value":
             return o.set_value(self.env.lookup(op["p"]), make_value(op["v"]))
